@@ -119,6 +119,9 @@ func (account Account) Validate() error {
 		if !accountExistInMacPerms(account.Id) {
 			return fmt.Errorf("module account \"%s\" doesn't exist in maccPerms", account.Id)
 		}
+		if account.Id == DistributorMainAccount {
+			return fmt.Errorf("module account \"%s\" is the distributor main account, use account type %s", account.Id, Main)
+		}
 	default:
 		return fmt.Errorf("account \"%s\" is of the wrong type: %s", account.Id, account.Type)
 	}
